@@ -3,6 +3,7 @@ package main
 // flow.go — error flow (P7) and a narrow lockset (P9).
 
 import (
+	"go/constant"
 	"go/token"
 	"go/types"
 	"strings"
@@ -60,6 +61,9 @@ func errorSinks(v ssa.Value) []errSink {
 			return
 		}
 		for _, r := range *refs {
+			if deadBlock(r.Block()) {
+				continue // behind `if false` / the else of `if true`: never executed
+			}
 			switch x := r.(type) {
 			case *ssa.Return:
 				sinks = append(sinks, errSink{"return", x})
@@ -287,6 +291,21 @@ func edgeImpliesNil(pred, succ *ssa.BasicBlock, e ssa.Value) bool {
 	}
 	if pred.Succs[1] == succ && pred.Succs[0] != succ {
 		return !nilOnTrue
+	}
+	return false
+}
+
+// deadBlock: the block is reached only through the edge of a branch on a boolean constant that is never taken.
+func deadBlock(b *ssa.BasicBlock) bool {
+	if b == nil {
+		return false
+	}
+	for _, g := range guardsOf(b) {
+		if k, ok := g.Cond.(*ssa.Const); ok && k.Value != nil && k.Value.Kind() == constant.Bool {
+			if constant.BoolVal(k.Value) != g.Branch {
+				return true
+			}
+		}
 	}
 	return false
 }
